@@ -85,7 +85,7 @@ func enumerate(thorough bool) (cells []*Cell, nominal int, skipped skipCount) {
 		name     string
 		chunk, n int
 	}
-	fams := []fam{{"direct", 3, 7}, {"reduce", 4, 9}}
+	fams := []fam{{"direct", 3, 7}, {"reduce", 4, 9}, {"reshuffle", 3, 7}}
 	sites := []struct{ site, loc string }{
 		{"reader", ""}, {"writer", ""}, {"map", ""}, {"filter", ""}, {"flatmap", ""}, {"fold", ""},
 		{"combiner", "table"}, {"combiner", "buffer"}, {"combiner", "merge"}, {"repart", ""}, {"scan", ""},
@@ -136,8 +136,12 @@ func enumerate(thorough bool) (cells []*Cell, nominal int, skipped skipCount) {
 							for _, ps := range positions(f.chunk, f.n) {
 								pos := ps.name
 								nominal++
+								if f.name == "reshuffle" && (!(st.site == "reader" || st.site == "writer") || !(mode == "err" || mode == "tempbase" || mode == "panic")) {
+									nominal-- // this family exists for the reader/writer sites and three modes only
+									continue
+								}
 								switch {
-								case st.site == "combiner" && f.name == "direct":
+								case st.site == "combiner" && (f.name == "direct" || f.name == "reshuffle"):
 									skipped["reduce combiner exists only in the pipeline with a Reduce"]++
 									continue
 								case (mode == "oorhi" || mode == "oorneg") && st.site != "repart":
@@ -806,7 +810,7 @@ func main() {
 	r.Finish(ev.Coverage{
 		"evaluations":         atomic.LoadInt64(&nRuns),
 		"distinct_nontrivial": fired,
-		"rule": "cells = call site {ReaderFunc, WriterFunc, Map, Filter, Flatmap, Fold, Reduce combiner @ task-local table / shared (per-task or per-machine) combine buffer / consumer-side merge, Repartition fn, Scan callback} x mode {error, temporary (base errors.Temporary), temporary (net-style Temporary()), temporary (one package-level *errors.Error sentinel returned every time), temporary (base errors.Retriable severity: 'can be safely retried'), panic, partition >= n, partition < 0} x {always, once, twice (temporary modes; fails the first two times it is reached in a run)} x position {first row, first row after the vector boundary, last row (of the last shard), at EOF} x pipeline {armed operator last; ... -> Reduce} x configuration {local, verifsystem 1 machine, same + MachineCombiners (+ 2 machines for the consumer merge)" +
+		"rule": "cells = call site {ReaderFunc, WriterFunc, Map, Filter, Flatmap, Fold, Reduce combiner @ task-local table / shared (per-task or per-machine) combine buffer / consumer-side merge, Repartition fn, Scan callback} x mode {error, temporary (base errors.Temporary), temporary (net-style Temporary()), temporary (one package-level *errors.Error sentinel returned every time), temporary (base errors.Retriable severity: 'can be safely retried'), panic, partition >= n, partition < 0} x {always, once, twice (temporary modes; fails the first two times it is reached in a run)} x position {first row, first row after the vector boundary, last row (of the last shard), at EOF} x pipeline {armed operator last; ... -> Reduce; ... -> Reshuffle (reader/writer sites; error, temporary, panic)} x configuration {local, verifsystem 1 machine, same + MachineCombiners (+ 2 machines for the consumer merge)" +
 			map[bool]string{true: ", verifsystem 4 one-proc machines", false: ""}[r.Thorough()] + "}; vector size 3 with 7 rows/shard (4 and 9 where a Reduce is present: combining frames need a power of two); 2 shards. For transient temporary failures of ReaderFunc/WriterFunc feeding a Reduce on the cluster configurations additionally two forced interleavings (user functions coordinate through in-process gates, 20 s gate timeout = not forced): the other shard's task is still running when the failing attempt exits and until its re-run has read its input / has read all its input before the first failure. After the failing run the failing Func is run again in the same session (local: once per proc; clusters: once; transient failures fire again in each of these runs and must again go away), then a healthy Func whose tasks are Exclusive (need all procs). A cell is non-trivial iff its user function actually delivered the failure (counted by the function itself) or the process died in it. evaluations = cell executions including confirmation re-runs.",
 		"cells_nominal":                             nominal,
 		"cells_meaningful":                          len(cells),
